@@ -41,18 +41,18 @@ type xmitRec struct {
 }
 
 type wireFacts struct {
-	Xmit        [2]map[uint32]*xmitRec // per sender: tsn -> record
-	XmitOrder   [2][]uint32
-	InitTSN     [2]uint32
-	HaveInit    [2]bool
-	ZCAdvert    [2]bool // endpoint i advertised zero-checksum acceptance (edmid 1) on the wire
-	ILAdvert    [2]bool
-	FwdAdvert   [2]bool
-	IFwdAdvert  [2]bool
-	Negotiated  bool // both INIT and INIT-ACK seen
-	FwdTSNs     [2][]*wChunk
-	Sacks       [2][]*wChunk
-	Aborts      [2][]*wChunk
+	Xmit       [2]map[uint32]*xmitRec // per sender: tsn -> record
+	XmitOrder  [2][]uint32
+	InitTSN    [2]uint32
+	HaveInit   [2]bool
+	ZCAdvert   [2]bool // endpoint i advertised zero-checksum acceptance (edmid 1) on the wire
+	ILAdvert   [2]bool
+	FwdAdvert  [2]bool
+	IFwdAdvert [2]bool
+	Negotiated bool // both INIT and INIT-ACK seen
+	FwdTSNs    [2][]*wChunk
+	Sacks      [2][]*wChunk
+	Aborts     [2][]*wChunk
 }
 
 func paramZC(ps []wTLV) (bool, bool) {
@@ -110,14 +110,14 @@ func runWireMonitors(m *Sim, x *Exec, o monOpts) *wireFacts {
 	}
 	// M-sack state per receiver y
 	type rstate struct {
-		mustReport map[uint32]bool // delivered while certainly inside the TSN window
-		delivered map[uint32]bool
-		fwdPoint  uint32
-		haveFwd   bool
-		base      uint32 // peer initial TSN - 1
-		haveBase  bool
-		lastCum   uint32
-		haveCum   bool
+		mustReport   map[uint32]bool // delivered while certainly inside the TSN window
+		delivered    map[uint32]bool
+		fwdPoint     uint32
+		haveFwd      bool
+		base         uint32 // peer initial TSN - 1
+		haveBase     bool
+		lastCum      uint32
+		haveCum      bool
 		shutdownSeen bool
 	}
 	var rs [2]*rstate
